@@ -157,6 +157,62 @@ def pair_convergence(h):
         h.cover("c05.pair.refused")
 
 
+def replay_pair_convergence(model, params, role):
+    ch = dict(map(tuple, model.get("_choices", [])))
+    def bs(name, n):
+        v = model.get(name)
+        if isinstance(v, str):
+            return bytes.fromhex(v).ljust(n, b"\0")[:n]
+        return bytes([int(model.get(f"{name}[{i}]", 0)) for i in range(n)])
+    nd = params.get("decisions", 5)
+    mech = ch.get("mechanism", 0)
+    id_lens = params.get("id_lens", [0, 1])
+    idl = id_lens[ch.get("client_identity", 0)]
+    ckv, skv = ["type=DEALER"], ["type=ROUTER"]
+    if idl:
+        ckv.append("routing_id=" + bs("ident", idl).hex())
+    if mech:
+        u, pw, extra = bs("user", 1), bs("pass", 1), bs("extra", 1)
+        cu, cp, su, sp = u, pw, u, pw
+        if mech == 2:
+            shapes = params.get("uneq_shapes", [0, 1, 2, 3, 4])
+            shape = shapes[ch.get("uneq_shape", 0)]
+            if shape == 0:
+                sp = bs("pass2", 1)
+            elif shape == 1:
+                cp = cp + extra
+            elif shape == 2:
+                sp = sp + extra
+            elif shape == 3:
+                cu = cu + extra
+            else:
+                su = su + extra
+        ckv += ["security=1", f"plain_user={cu.hex()}", f"plain_pass={cp.hex()}"]
+        skv += ["security=1", f"plain_user={su.hex()}", f"plain_pass={sp.hex()}"]
+    lines = ["pair " + " ".join(ckv) + " -- " + " ".join(skv)]
+    for i in range(nd):
+        if f"dir{i}" not in ch:
+            break
+        lines.append(f"pstep {ch.get(f'dir{i}', 0)} {ch.get(f'one{i}', 0)}")
+    lines += ["pflush", ""]
+    def last(out):
+        l = [x for x in out.splitlines() if x.startswith("pair client_phase")]
+        return l[-1] if l else ""
+    if "wrong-credentials" in role:
+        return "\n".join(lines), (lambda out: "hc_client=[]" not in last(out) or "hc_server=[]" not in last(out) or "server_phase=Closed" not in last(out)), \
+            "two real engines, PLAIN with unequal credentials, delivery schedule from the solver; expecting a completed handshake or a server that is not closed"
+    if "did-not-converge" in role or "handshake-complete-count" in role:
+        return "\n".join(lines), (lambda out: bool(last(out)) and not ("client_phase=Data" in last(out) and "server_phase=Data" in last(out) and last(out).count("type=") == 2)), \
+            "two real engines with compatible settings, delivery schedule from the solver; expecting them not to converge"
+    if "wrong-identity" in role or "identity-invented" in role:
+        want = "identity=" + (bs("ident", idl).hex() if idl else "none")
+        return "\n".join(lines), (lambda out: bool(last(out)) and ("hc_server=[" + want) not in last(out)), \
+            f"two real engines, client routing id of {idl} bytes; expecting the server to report a different identity"
+    if "never-quiescent" in role:
+        return "\n".join(lines), (lambda out: bool(last(out)) and "pending=0/0" not in last(out)), "expecting bytes still in flight after 40 rounds"
+    return "\n".join(lines), (lambda out: "PANIC" in out or "panicked" in out), "expecting a panic"
+
+
 def replay_compat_inproc(model, params, role):
     ch = dict(map(tuple, model.get("_choices", [])))
     a, b = INPROC_ENUM[ch.get("connector", 0)], INPROC_ENUM[ch.get("binder", 0)]
